@@ -45,6 +45,9 @@ class Aff:
         return self.a == o.a and self.b == o.b
 
 
+_MODENV_CACHE = {}
+
+
 class Rounded:
     """round(<affine in the income>) with one argument: Python rounds halves to the even neighbour.  Only comparisons with
     whole-number constants are supported; each is an interval condition on the income itself."""
@@ -52,6 +55,17 @@ class Rounded:
 
     def __init__(self, inner):
         self.inner = inner
+
+
+class Floored:
+    """floor(<affine in the income> / c) for a positive constant c (`income // 25`, possibly wrapped in int()): a step
+    function of the income.  Supported: comparison with whole-number constants and use as a table index (the domain is
+    split into the steps)."""
+    __slots__ = ('inner', 'c')
+
+    def __init__(self, inner, c):
+        self.inner = inner
+        self.c = Fraction(c)
 
 
 class Interval:
@@ -129,6 +143,82 @@ class PW:
                 self.consts[name] = v
                 return v
         return None
+
+    def module_env(self):
+        """Names that the module computes with top-level loops (an index list built once at import time).  Only modules
+        that have such loops are executed, concretely, statement by statement; everything else keeps being read as
+        literals."""
+        if getattr(self, '_modenv', None) is not None:
+            return self._modenv
+        shared = _MODENV_CACHE.get((id(self.ip), self.rel))
+        if shared is not None:
+            self._modenv = shared
+            return shared
+        self._modenv = {}
+        mod = self.ip.tree.module(self.rel)
+        if not any(isinstance(st, (ast.For, ast.While)) for st in mod.body):
+            _MODENV_CACHE[(id(self.ip), self.rel)] = self._modenv
+            return self._modenv
+        env = {}
+        self.in_prelude = True
+        try:
+            self._modenv = env            # names bound so far are visible to later statements
+            self._budget = 3_000_000
+            for st in mod.body:
+                if isinstance(st, (ast.FunctionDef, ast.ClassDef, ast.Import, ast.ImportFrom)):
+                    continue
+                if isinstance(st, ast.Expr) and isinstance(st.value, ast.Constant):
+                    continue
+                self.run_concrete(st, env)
+        finally:
+            self.in_prelude = False
+        _MODENV_CACHE[(id(self.ip), self.rel)] = env
+        return env
+
+    def run_concrete(self, st, env):
+        self._budget -= 1
+        if self._budget < 0:
+            raise AnalysisError(f'{self.rel}: module-level code does not finish within the step budget')
+        if isinstance(st, ast.Assign):
+            try:
+                v = ast.literal_eval(st.value)
+            except Exception:
+                v = self.ev(st.value, env)
+            for t in st.targets:
+                self.bind(t, v, env)
+        elif isinstance(st, ast.AugAssign) and isinstance(st.target, ast.Name):
+            env[st.target.id] = self.arith(st.op, self.ev(st.target, env), self.ev(st.value, env), st)
+        elif isinstance(st, ast.Expr):
+            self.ev(st.value, env)
+        elif isinstance(st, ast.For):
+            seq = self.ev(st.iter, env)
+            if not isinstance(seq, (tuple, list)):
+                raise AnalysisError(f'{self.rel}:{st.lineno} module-level loop over a non-constant sequence')
+            for item in seq:
+                self.bind(st.target, item, env)
+                for b in st.body:
+                    self.run_concrete(b, env)
+        elif isinstance(st, ast.While):
+            while self._truth(self.ev(st.test, env), st):
+                for b in st.body:
+                    self.run_concrete(b, env)
+                self._budget -= 1
+                if self._budget < 0:
+                    raise AnalysisError(f'{self.rel}:{st.lineno} module-level while loop does not finish within the step budget')
+        elif isinstance(st, ast.If):
+            for b in (st.body if self._truth(self.ev(st.test, env), st) else st.orelse):
+                self.run_concrete(b, env)
+        elif isinstance(st, (ast.Pass, ast.Assert)):
+            pass
+        else:
+            raise AnalysisError(f'{self.rel}:{st.lineno} module-level statement {type(st).__name__} is outside the subset')
+
+    def _truth(self, v, st):
+        if isinstance(v, Aff):
+            if v.a != 0:
+                raise AnalysisError(f'{self.rel}:{st.lineno} truth value of the income itself')
+            return v.b != 0
+        return bool(v)
 
     # ------------------------------------------------------------------
     def run_function(self, fn, args, dom):
@@ -276,6 +366,16 @@ class PW:
                             self.cur_outs.append(o)
                     self.steps += sub.steps
                 return out
+        if isinstance(n, ast.Subscript) and not isinstance(n.slice, ast.Slice) and self.mentions_x(n.slice, env):
+            out = []
+            for (base, d1) in self.eval_split(n.value, env, dom):
+                for (k, d2) in self.eval_split(n.slice, env, d1):
+                    if isinstance(k, Floored):
+                        for (kv, d3) in self.floor_pieces(k, d2, n):
+                            out.append((self.index(base, kv, n), d3))
+                    else:
+                        out.append((self.index(base, k, n), d2))
+            return out
         if isinstance(n, ast.BoolOp) or isinstance(n, ast.Compare) or (isinstance(n, ast.UnaryOp) and isinstance(n.op, ast.Not)):
             if self.mentions_x(n, env):
                 return [(t, d) for (t, d) in self.cond(n, env, dom)]
@@ -339,8 +439,10 @@ class PW:
 
     def mentions_x(self, n, env):
         for x in ast.walk(n):
-            if isinstance(x, ast.Name) and isinstance(env.get(x.id), Aff) and env[x.id].a != 0:
-                return True
+            if isinstance(x, ast.Name):
+                v = env.get(x.id)
+                if (isinstance(v, Aff) and v.a != 0) or isinstance(v, (Floored, Rounded)):
+                    return True
         return False
 
     def ev(self, n, env):
@@ -350,6 +452,9 @@ class PW:
         if isinstance(n, ast.Name):
             if n.id in env:
                 return env[n.id]
+            me = self.module_env()
+            if n.id in me:
+                return me[n.id]
             c = self.module_const(n.id)
             if c is not None:
                 return c
@@ -410,6 +515,10 @@ class PW:
             if len(r) == 1:
                 return r[0][0]
             raise AnalysisError(f'{self.rel}:{n.lineno} condition on the income used as a value here')
+        if isinstance(n, ast.Call) and isinstance(n.func, ast.Attribute) and n.func.attr in ('append', 'extend', 'insert', 'pop') and getattr(self, 'in_prelude', False):
+            obj = self.ev(n.func.value, env)
+            if isinstance(obj, list):
+                return getattr(obj, n.func.attr)(*[self.ev(a, env) for a in n.args])
         if isinstance(n, ast.Call):
             f = self.ev(n.func, env)
             args = [self.ev(a, env) for a in n.args]
@@ -417,6 +526,8 @@ class PW:
                 if f.name == 'float':
                     v = args[0]
                     return Aff(v.a, v.b, True) if isinstance(v, Aff) else Aff(0, frac(v), True)
+                if f.name == 'int' and isinstance(args[0], Floored):
+                    return args[0]
                 if f.name == 'int' and not isinstance(args[0], Aff):
                     return int(args[0])
                 if f.name == 'round' and len(args) == 1 and not n.keywords:
@@ -461,8 +572,16 @@ class PW:
                 and not isinstance(op, ast.Div):
             return {ast.Add: lambda: a + b, ast.Sub: lambda: a - b, ast.Mult: lambda: a * b, ast.FloorDiv: lambda: a // b,
                     ast.Mod: lambda: a % b}[type(op)]()
+        if isinstance(op, ast.FloorDiv) and isinstance(a, Aff) and a.a != 0 and not isinstance(b, (Aff, Floored, Rounded)) and frac(b) > 0:
+            return Floored(a, frac(b))
+        if isinstance(a, (Floored, Rounded)) or isinstance(b, (Floored, Rounded)):
+            raise AnalysisError(f'{self.rel}:{n.lineno} arithmetic on a rounded / floored income is outside the piecewise-affine subset')
         A = a if isinstance(a, Aff) else Aff(0, frac(a), isinstance(a, float))
         B = b if isinstance(b, Aff) else Aff(0, frac(b), isinstance(b, float))
+        if isinstance(op, ast.FloorDiv) and A.a == 0 and B.a == 0 and B.b != 0:
+            import math as _m
+            q = _m.floor(A.b / B.b)
+            return Aff(0, q, A.is_float or B.is_float) if (isinstance(a, (Aff, float)) or isinstance(b, (Aff, float))) else q
         if isinstance(op, ast.Add):
             return Aff(A.a + B.a, A.b + B.b)
         if isinstance(op, ast.Sub):
@@ -517,10 +636,28 @@ class PW:
                 return self._merge(res)
         if isinstance(n, ast.UnaryOp) and isinstance(n.op, ast.Not):
             return [(not t, d) for (t, d) in self.cond(n.operand, env, dom)]
+        if isinstance(n, ast.Compare) and len(n.ops) > 1:
+            # a op1 b op2 c: every operand is evaluated once, the links are tested left to right
+            vals = [self.ev(n.left, env)] + [self.ev(c, env) for c in n.comparators]
+            res = []
+            cur = dom
+            for k, op in enumerate(n.ops):
+                nxt = []
+                for (t, d) in self.cmp_values(vals[k], vals[k + 1], op, cur, n):
+                    if t:
+                        nxt.extend(d)
+                    else:
+                        res.append((False, d))
+                cur = nxt
+                if not cur:
+                    break
+            if cur:
+                res.append((True, cur))
+            return self._merge(res)
         if isinstance(n, ast.Compare) and len(n.ops) == 1:
-            a = self.ev(n.left, env)
-            b = self.ev(n.comparators[0], env)
-            op = n.ops[0]
+            return self.cmp_values(self.ev(n.left, env), self.ev(n.comparators[0], env), n.ops[0], dom, n)
+        if False:
+            a = b = op = None
             if isinstance(a, Rounded) or isinstance(b, Rounded):
                 return self.split_rounded(a, b, op, dom, n)
             if isinstance(a, Aff) or isinstance(b, Aff):
@@ -547,6 +684,84 @@ class PW:
                 raise AnalysisError(f'{self.rel}:{n.lineno} truth value of the income itself')
             out.append((bool(v) if not isinstance(v, (EnumMember,)) else True, d))
         return self._merge(out)
+
+    def cmp_values(self, a, b, op, dom, n):
+        if isinstance(a, Floored) or isinstance(b, Floored):
+            return self.split_floored(a, b, op, dom, n)
+        if isinstance(a, Rounded) or isinstance(b, Rounded):
+            return self.split_rounded(a, b, op, dom, n)
+        if isinstance(a, Aff) or isinstance(b, Aff):
+            if isinstance(op, (ast.Lt, ast.LtE, ast.Gt, ast.GtE)):
+                A = a if isinstance(a, Aff) else Aff(0, frac(a))
+                B = b if isinstance(b, Aff) else Aff(0, frac(b))
+                return self.split_cmp(A, B, op, dom, n)
+            if isinstance(op, (ast.Eq, ast.NotEq)) and not (isinstance(a, Aff) and a.a != 0) and not (isinstance(b, Aff) and b.a != 0):
+                va = a.b if isinstance(a, Aff) else (frac(a) if isinstance(a, (int, float)) and not isinstance(a, bool) else a)
+                vb = b.b if isinstance(b, Aff) else (frac(b) if isinstance(b, (int, float)) and not isinstance(b, bool) else b)
+                r = va == vb
+                return [(r if isinstance(op, ast.Eq) else not r, dom)]
+            raise AnalysisError(f'{self.rel}:{n.lineno} comparison {unparse(n)} on the income is outside the subset')
+        r = self.ip.compare(op, a, b, n, None)
+        if isinstance(r, Unknown):
+            raise AnalysisError(f'{self.rel}:{n.lineno} undecidable test {unparse(n)}: {r.reason}')
+        return [(bool(r), dom)]
+
+    def split_floored(self, a, b, op, dom, n):
+        mirror = {ast.Lt: ast.Gt, ast.LtE: ast.GtE, ast.Gt: ast.Lt, ast.GtE: ast.LtE}
+        if isinstance(b, Floored):
+            if isinstance(a, Floored) or type(op) not in mirror:
+                raise AnalysisError(f'{self.rel}:{n.lineno} comparison {unparse(n)} on the floored income is outside the subset')
+            a, b, op = b, a, mirror[type(op)]()
+        k = b.b if isinstance(b, Aff) and b.a == 0 else (frac(b) if isinstance(b, (int, float)) and not isinstance(b, bool) else None)
+        if k is None or k.denominator != 1 or type(op) not in mirror:
+            raise AnalysisError(f'{self.rel}:{n.lineno} comparison {unparse(n)} on the floored income is outside the subset')
+        k = int(k)
+        # floor(t/c) >= k  <=>  t >= k*c ;  floor(t/c) > k  <=>  t >= (k+1)*c
+        neg = isinstance(op, (ast.Lt, ast.LtE))
+        kk = k if isinstance(op, (ast.GtE, ast.Lt)) else k + 1
+        res = self.split_cmp(a.inner, Aff(0, kk * a.c), ast.GtE(), dom, n)
+        return [((not t) if neg else t, d) for (t, d) in res]
+
+    def floor_pieces(self, F, dom, n):
+        """[(k, sub-domain on which floor(inner/c) == k)]"""
+        import math as _m
+        a, b, c = F.inner.a, F.inner.b, F.c
+        if a <= 0:
+            raise AnalysisError(f'{self.rel}:{n.lineno} floor of a non-increasing function of the income')
+        out = []
+        for iv in dom:
+            if iv.hi >= 10 ** 11:
+                raise AnalysisError(f'{self.rel}:{n.lineno} table indexed by a floored income on an unbounded range')
+            k_lo = _m.floor((a * iv.lo + b) / c)
+            k_hi = _m.floor((a * iv.hi + b) / c)
+            if k_hi - k_lo > 200000:
+                raise AnalysisError(f'{self.rel}:{n.lineno} more than 200000 steps')
+            for k in range(k_lo, k_hi + 1):
+                lo = (k * c - b) / a
+                hi = ((k + 1) * c - b) / a
+                part = Interval(max(lo, iv.lo), min(hi, iv.hi), iv.lo_open if iv.lo >= lo else False, True if hi <= iv.hi else iv.hi_open)
+                if hi > iv.hi:
+                    part = Interval(max(lo, iv.lo), iv.hi, iv.lo_open if iv.lo >= lo else False, iv.hi_open)
+                if not part.empty():
+                    out.append((k, [part]))
+        return out
+
+    def index(self, base, k, n):
+        if isinstance(k, Aff):
+            if k.a != 0:
+                raise AnalysisError(f'{self.rel}:{n.lineno} table indexed by the income itself')
+            k = int(k.b)
+        if isinstance(base, dict):
+            for kk, vv in base.items():
+                if kk == k:
+                    return vv
+            raise ProgramRaise(f'KeyError: {k!r} is not a key of {unparse(n.value, 40)}', n)
+        try:
+            return base[k]
+        except (IndexError, KeyError) as e:
+            raise ProgramRaise(f'{type(e).__name__}: {unparse(n, 50)} with index {k!r}', n)
+        except Exception as e:
+            raise AnalysisError(f'{self.rel}:{n.lineno} subscript failed: {e} ({unparse(n)} with index {k!r})')
 
     def _merge(self, res):
         t = [i for (tr, d) in res if tr for i in d]
